@@ -420,11 +420,9 @@ func (c *Ctx) StateStoreDiscipline(prop string, s *Slashing, kind string) {
 			continue
 		}
 		fa := fs.Store.Addr.(*ssa.FieldAddr)
-		// (c) fresh object in import/export
-		if fn == s.ExportFn || fn == s.ImportFn {
-			if a, ok := fa.X.(*ssa.Alloc); ok && a.Heap {
-				continue
-			}
+		// (c) fresh object in import/export, or in a package helper that only they call
+		if a, ok := fa.X.(*ssa.Alloc); ok && a.Heap && c.onlyCalledFrom(fn, map[*ssa.Function]bool{s.ExportFn: true, s.ImportFn: true}, 2) {
+			continue
 		}
 		d, known := roleOf[fs.Field]
 		if !known {
@@ -486,4 +484,41 @@ func homeProp(kind string) string {
 		return "C02"
 	}
 	return "C01"
+}
+
+// onlyCalledFrom: fn is one of the roots, or every static call of fn in the module (there is at least one, and fn is not
+// used as a value) comes from a function for which the same holds (depth-limited).
+func (c *Ctx) onlyCalledFrom(fn *ssa.Function, roots map[*ssa.Function]bool, depth int) bool {
+	if roots[fn] {
+		return true
+	}
+	if depth == 0 || fn == nil {
+		return false
+	}
+	if refs := fn.Referrers(); refs != nil && len(*refs) > 0 {
+		return false
+	}
+	for _, g := range c.P.ModuleFuncs() {
+		for _, b := range g.Blocks {
+			for _, ins := range b.Instrs {
+				for _, op := range ins.Operands(nil) {
+					if *op == ssa.Value(fn) {
+						if ci, ok := ins.(ssa.CallInstruction); !ok || ci.Common().Value != ssa.Value(fn) {
+							return false // used as a value
+						}
+					}
+				}
+			}
+		}
+	}
+	callers := c.staticCallers()[fn]
+	if len(callers) == 0 {
+		return false
+	}
+	for _, ci := range callers {
+		if !c.onlyCalledFrom(ci.Parent(), roots, depth-1) {
+			return false
+		}
+	}
+	return true
 }
